@@ -39,7 +39,7 @@ import (
 func TestMain(m *testing.M) { rec.Main(m) }
 
 const rule = "histories over a simulated Tendermint counterparty (1-7 ed25519 validators, power splits built around the 2/3 and trust-level thresholds, " +
-	"changing validator sets) and a light client with drawn trust level / trusting period / clock drift / delay: updates (adjacent, skipping, back-filling, " +
+	"changing validator sets, restarts under the next revision number followed by the client through an UpgradeClient, with back-fills from the chain of the earlier revision) and a light client with drawn trust level / trusting period / clock drift / delay: updates (adjacent, skipping, back-filling, " +
 	"duplicate height, not newer) from any stored or unstored trusted height, signer subsets chosen minimal-sufficient / maximal-insufficient for either set, " +
 	"single signature faults, single header mutations before and after signing, every update also probed on discarded branches at the clock values " +
 	"trusted+trustingPeriod-1ns/+0, latest+trustingPeriod-1ns/+0, header.time-drift+0/+1ns; proof checks at stored/unstored/above-latest heights with genuine ICS-23 proofs " +
@@ -91,6 +91,11 @@ func packetKey(ack bool, seq uint64) []byte {
 
 type stepLog map[string]interface{}
 
+type oldRevision struct {
+	sim *tmsim.Chain
+	mem map[int64][]tmsim.Member
+}
+
 type world struct {
 	r    *rec.Recorder
 	c    *kit.Chain
@@ -104,6 +109,10 @@ type world struct {
 	nk   int
 	tl   frac
 	log  []stepLog
+	// counterparty chains of earlier revisions (the chain restarted under the next revision number; the client followed through
+	// an UpgradeClient proposal and still holds consensus states of the earlier revisions)
+	old  []oldRevision
+	keys []tmsim.Key
 	// exclusions
 	exclDelayOverflow bool
 	// deliver mode: the client lives in the deliver state of a dedicated chain and updates are signed
@@ -621,6 +630,19 @@ func (w *world) update(t *rapid.T) {
 			trKind = "stored"
 		}
 	}
+	// against the chain of an earlier revision an honest relayer trusts a consensus state of that revision
+	if simRev := revisionOf(w.sim.ChainID); simRev != w.m.Latest.Rev && rapid.IntRange(0, 4).Draw(t, "trustSameRevision") != 0 {
+		var same []hkey
+		for _, h := range stored {
+			if h.Rev == simRev {
+				same = append(same, h)
+			}
+		}
+		if len(same) > 0 {
+			trusted = rapid.SampledFrom(same).Draw(t, "trustedOldRevision")
+			trKind, wantGap = "stored", false
+		}
+	}
 	trRec := w.m.Cons[trusted]
 
 	// target block
@@ -927,6 +949,9 @@ func (w *world) update(t *rapid.T) {
 			entry["trustedPower"] = fmt.Sprintf("%d of %d (%+d vs minimal >%d/%d)", a.TrValid, a.TrTotal, a.TrDist, w.tl.N, w.tl.D)
 		}
 		w.labels(a, res, kind, mut, fault, c.kind, trKind)
+		if res.accepted && hh.Rev != w.m.Latest.Rev {
+			w.r.Label("accepted-header-of-an-earlier-revision")
+		}
 		boundaryPower := (a.HaveOwn && a.OwnDist >= -1 && a.OwnDist <= 1) || (a.HaveTr && a.TrDist >= -1 && a.TrDist <= 1)
 		nontrivial := boundaryPower || mut != "none" || fault != "none" || !strings.HasPrefix(kind, "forward") || c.kind != "now"
 		shape := fmt.Sprintf("%s|own%s|tr%s|%s|%s|%s|%s|%s|acc=%v", kind, bucket(a.HaveOwn, a.OwnDist), bucket(a.HaveTr, a.TrDist), mut, fault, c.kind,
@@ -1251,6 +1276,59 @@ func (w *world) revive(t *rapid.T) {
 	w.checkSync(t, w.at(w.now))
 }
 
+// bumpRevision: the counterparty restarts under the next revision number (a new chain id "name-(r+1)" whose heights start
+// again at a small number) and the client follows the way an UpgradeClient proposal makes it: new chain id, latest height
+// (r+1, first) and the consensus state of that block. Consensus states of the earlier revision stay in the store, so validly
+// signed headers of the old revision can still be back-filled from them (and must never lower the latest height).
+func (w *world) bumpRevision(t *rapid.T) {
+	rev := revisionOf(w.m.ChainID)
+	newID := chainIDAtRevision(w.m.ChainID, rev+1)
+	if newID == w.m.ChainID || len(w.old) >= 2 {
+		t.Skip("chain id not in revision format / enough revisions")
+	}
+	first := rapid.SampledFrom([]int64{1, 1, 2, 3, 40}).Draw(t, "newRevisionFirstHeight")
+	t0 := w.now.Add(-time.Duration(rapid.IntRange(1, 3).Draw(t, "newRevisionAge")))
+	if last := w.sim.Blocks[w.sim.Last]; !t0.After(last.Time) {
+		t0 = last.Time.Add(1)
+	}
+	if !t0.Before(w.now.Add(w.m.Drift)) {
+		t.Skip("old revision's head is in the client's future")
+	}
+	vals0 := w.designMembers(t)
+	next0 := w.nextMembers(t, vals0)
+	sim := tmsim.NewChain(newID, w.keys, first, t0, vals0, next0, append(w.drawWrites(t), tmsim.KV{Key: packetKey(false, 1), Value: tmhash.Sum([]byte{0})}))
+	w.old = append(w.old, oldRevision{sim: w.sim, mem: w.mem})
+	w.sim, w.mem = sim, map[int64][]tmsim.Member{first: next0}
+	b := sim.Blocks[first]
+	ctx := w.at(w.now)
+	cs := *w.clientState(ctx)
+	cs.ChainId = newID
+	cs.LatestHeight = clienttypes.NewHeight(rev+1, uint64(first))
+	kit.Must(cs.Validate(), "client state of the next revision")
+	cons := &xibctmtypes.ConsensusState{Timestamp: b.Time, Root: b.AppHash, NextValidatorsHash: b.NextVals.Hash()}
+	kit.Must(w.c.App.XIBCKeeper.ClientKeeper.UpgradeClient(ctx, w.name, &cs, cons), "UpgradeClient")
+	h := hkey{rev + 1, uint64(first)}
+	w.m.ChainID = newID
+	w.m.Latest = h
+	w.m.Cons[h] = &consRec{Time: b.Time, Root: b.AppHash, NextValsHash: b.NextVals.Hash()}
+	w.observeProcessed(ctx, h)
+	w.r.Label("gov-upgrade-next-revision")
+	w.log = append(w.log, stepLog{"op": "govUpgradeNextRevision", "chainID": newID, "to": h.String(), "now": off(w.now)})
+	w.checkSync(t, w.at(w.now))
+	w.produce(t)
+}
+
+// updateOldRevision runs an update step against the counterparty chain of an earlier revision: its headers (chain id of that
+// revision) trusting consensus states the client still holds for that revision are back-fills below the latest height.
+func (w *world) updateOldRevision(t *rapid.T) {
+	i := rapid.IntRange(0, len(w.old)-1).Draw(t, "oldRevision")
+	cur := oldRevision{sim: w.sim, mem: w.mem}
+	w.sim, w.mem = w.old[i].sim, w.old[i].mem
+	defer func() { w.sim, w.mem = cur.sim, cur.mem }()
+	w.r.Label("update-from-old-revision")
+	w.update(t)
+}
+
 // advanceTo moves the clock (in deliver mode by committing the open block of the real chain).
 func (w *world) advanceTo(at time.Time) {
 	if w.deliver {
@@ -1325,6 +1403,7 @@ func runHistory(t *rapid.T, r *rec.Recorder, deliver bool) {
 	for i := range keys {
 		keys[i] = poolKey(salt*10 + i)
 	}
+	w.keys = keys
 	chainID := rapid.SampledFrom(chainIDs).Draw(t, "chainID")
 	w.name = chainID
 	if deliver {
@@ -1398,10 +1477,20 @@ func runHistory(t *rapid.T, r *rec.Recorder, deliver bool) {
 				w.proof(t)
 			case k <= 15:
 				w.produce(t)
-			case k <= 18:
+			case k <= 17:
 				w.tick(t)
+			case k == 18:
+				if len(w.old) > 0 && rapid.IntRange(0, 3).Draw(t, "bumpAgain") != 0 {
+					w.updateOldRevision(t)
+				} else {
+					w.bumpRevision(t)
+				}
 			default:
-				w.lowerLatest(t)
+				if len(w.old) > 0 && rapid.Bool().Draw(t, "oldRevisionUpdate") {
+					w.updateOldRevision(t)
+				} else {
+					w.lowerLatest(t)
+				}
 			}
 		},
 	})
